@@ -1,6 +1,7 @@
 package wire
 
 import (
+	"io"
 	"context"
 )
 
@@ -441,5 +442,239 @@ func VerifH03s() {
 	}
 	if len(whole.w.events) >= 2 {
 		vReach("two-callbacks")
+	}
+}
+
+// ---------------------------------------------------------------------------
+// H10g — a declared length far beyond the limit, up to 2^32-1 (C10, C03): a
+// message whose header declares any length above the limit — including values
+// with the top bit set — followed by fewer bytes than declared (here: a
+// complete, well-formed Query) and the end of the stream. Those bytes belong
+// to the oversized message's body: they are never interpreted as a message,
+// no callback runs, and the connection ends because its input ended.
+// ---------------------------------------------------------------------------
+func VerifH10g() {
+	L := 64
+	typ := nondetByte()
+	declared := nondetU32()
+	vAssume(declared > uint32(L)+4+16) // more than what follows
+	hdr := []byte{typ, byte(declared >> 24), byte(declared >> 16), byte(declared >> 8), byte(declared)}
+	inside := vMsgBytes('Q', vCStr([]byte("b")))
+	w := vNewWorld(vCat(hdr, inside, inside), L)
+	w.parseMenu = -2
+	w.execMenu = 1
+	for k := 0; k < 4; k++ {
+		_, err := w.step()
+		if err != nil {
+			break
+		}
+	}
+	vAssert("body-of-an-oversized-message-is-never-a-message", len(w.events) == 0)
+	vAssert("wire-wellformed", vWireOK(w.conn.out))
+	if declared >= 1<<31 {
+		vReach("declared-length-with-the-top-bit-set")
+	} else {
+		vReach("declared-length-below-2^31")
+	}
+}
+
+// ---------------------------------------------------------------------------
+// H10h — the limit is a property of the connection, not of its history (C10):
+// a COPY-in cycle (CopyInResponse, optional CopyData, CopyDone) comes first,
+// then a message OVER bytes beyond the limit, then a normal query. The
+// oversized message is still skipped in full and answered with 54000, and the
+// query after it is served.
+// ---------------------------------------------------------------------------
+func VerifH10h() {
+	L := 64
+	withData := nondetBool()
+	over := 1 + vChoose(vParam("OVER", 3))
+	var parsed [][]byte
+	parse := func(ctx context.Context, query string) (PreparedStatements, error) {
+		parsed = append(parsed, []byte(query))
+		isCopy := query == "c"
+		fn := func(ctx context.Context, dw DataWriter, params []Parameter) error {
+			if isCopy {
+				cr, err := dw.CopyIn(TextFormat)
+				if err != nil {
+					return err
+				}
+				for k := 0; k < 3; k++ {
+					if err := cr.Read(); err != nil {
+						break
+					}
+				}
+				return dw.Complete("COPY")
+			}
+			return dw.Complete("T")
+		}
+		return Prepared(NewStatement(fn, WithColumns(vTextColumns(1)))), nil
+	}
+	input := vMsgBytes('Q', vCStr([]byte("c")))
+	if withData {
+		input = vCat(input, vMsgBytes('d', []byte("row\n")))
+	}
+	big := make([]byte, L+over)
+	for i := range big {
+		big[i] = 'x'
+	}
+	big[len(big)-1] = 0
+	input = vCat(input, vMsgBytes('c', nil), vMsgBytes('Q', big), vMsgBytes('Q', vCStr([]byte("b"))))
+	srv, err := NewServer(parse, MessageBufferSize(L))
+	vAssert("newserver-ok", err == nil)
+	w := &vWorld{srv: srv}
+	w.conn = vNewConn(input)
+	w.ses, w.rd, w.wr = vSession(srv, w.conn)
+	w.ctx = vCtx(srv)
+	got, serr := w.step()
+	vAssert("copy-cycle", serr == nil && got == "TGCZ")
+	got, serr = w.step()
+	vAssert("oversized-after-copy-keeps-connection", serr == nil)
+	vAssert("oversized-after-copy-one-ErrorResponse", got == "E" || got == "EZ")
+	msgs, _ := vFrames(w.conn.out)
+	for _, m := range msgs {
+		if m.typ == 'E' {
+			code, _ := vErrField(m.body, 'C')
+			vAssert("oversized-class-program-limit-exceeded", string(code) == "54000")
+		}
+	}
+	vAssert("oversized-after-copy-never-parsed", len(parsed) == 1)
+	got, serr = w.step()
+	vAssert("next-query-served", serr == nil && len(parsed) == 2 && string(parsed[1]) == "b" && vCount(got, 'Z') == 1)
+	vReach("oversized-after-a-copy-in-cycle")
+}
+
+// ---------------------------------------------------------------------------
+// H10i — an oversized message while a handler is reading COPY data (C10, C13,
+// C03): Query (the statement starts COPY-in and reads until an error), a small
+// CopyData, then a CopyData whose body is one byte beyond the limit and
+// consists of well-formed messages, then CopyDone, Sync and a normal query. The
+// oversized body is skipped in full — none of its bytes is taken for a
+// message, no callback runs for them —, the aborted COPY is reported with
+// exactly one ErrorResponse and one ReadyForQuery, and the query after it is
+// served.
+// ---------------------------------------------------------------------------
+func VerifH10i() {
+	L := 64
+	// the 65-byte body is made of well-formed messages (a symbolic body makes
+	// an implementation that does NOT skip it fork without end): thirteen Syncs,
+	// or a Query followed by eleven Flushes
+	var big []byte
+	if nondetBool() {
+		for k := 0; k < 13; k++ {
+			big = append(big, vMsgBytes('S', nil)...)
+		}
+	} else {
+		big = vMsgBytes('Q', vCStr([]byte("abcd")))
+		for k := 0; k < 11; k++ {
+			big = append(big, vMsgBytes('H', nil)...)
+		}
+		vReach("query-inside-the-oversized-body")
+	}
+	var parsed [][]byte
+	var copyErr error
+	chunks := 0
+	parse := func(ctx context.Context, query string) (PreparedStatements, error) {
+		parsed = append(parsed, []byte(query))
+		isCopy := query == "c"
+		fn := func(ctx context.Context, dw DataWriter, params []Parameter) error {
+			if isCopy {
+				cr, err := dw.CopyIn(TextFormat)
+				if err != nil {
+					return err
+				}
+				for k := 0; k < 4; k++ {
+					if err := cr.Read(); err != nil {
+						copyErr = err
+						break
+					}
+					chunks++
+				}
+				if copyErr == io.EOF {
+					return dw.Complete("COPY")
+				}
+				return copyErr
+			}
+			return dw.Complete("T")
+		}
+		return Prepared(NewStatement(fn, WithColumns(vTextColumns(1)))), nil
+	}
+	input := vCat(vMsgBytes('Q', vCStr([]byte("c"))), vMsgBytes('d', []byte("row\n")), vMsgBytes('d', big),
+		vMsgBytes('c', nil), vMsgBytes('S', nil), vMsgBytes('Q', vCStr([]byte("b"))))
+	srv, err := NewServer(parse, MessageBufferSize(L))
+	vAssert("newserver-ok", err == nil)
+	w := &vWorld{srv: srv}
+	w.conn = vNewConn(input)
+	w.ses, w.rd, w.wr = vSession(srv, w.conn)
+	w.ctx = vCtx(srv)
+	got, serr := w.step()
+	vAssert("connection-stays-up", serr == nil)
+	vAssert("copy-aborted-by-the-oversized-message", copyErr != nil && copyErr != io.EOF && chunks == 1)
+	vAssert("abort-exactly-one-E-one-Z", got == "TGEZ")
+	// what follows: CopyDone (stray: ignored), Sync, the query
+	for k := 0; k < 6 && len(parsed) < 2; k++ {
+		if _, e := w.step(); e != nil {
+			break
+		}
+	}
+	vAssert("nothing-of-the-oversized-body-is-a-message", len(parsed) == 2 && string(parsed[1]) == "b")
+	vAssert("wire-wellformed", vWireOK(w.conn.out))
+	vReach("oversized-copydata")
+}
+
+// ---------------------------------------------------------------------------
+// H18p — the password (and the user/database names) a validator was given
+// stay intact (C18): clear-text authentication with a validator that keeps
+// the strings it received next to private copies; then K simple queries whose
+// texts are long enough to be written over anything that is not protected.
+// Message limit: the default (16 MiB) or a small one — the solver's choice.
+// ---------------------------------------------------------------------------
+func VerifH18p() {
+	K := vParam("K", 2)
+	pw := nondetBytes(3)
+	vAssume(vNoNUL(pw))
+	user := vSymText(1)
+	var keptPw, keptUser, keptDB string
+	var copyPw, copyUser, copyDB []byte
+	validate := func(ctx context.Context, database, username, password string) (context.Context, bool, error) {
+		keptPw, keptUser, keptDB = password, username, database
+		copyPw, copyUser, copyDB = append([]byte{}, password...), append([]byte{}, username...), append([]byte{}, database...)
+		return ctx, true, nil
+	}
+	var kept []string
+	var copies [][]byte
+	parse := func(ctx context.Context, query string) (PreparedStatements, error) {
+		kept = append(kept, query)
+		copies = append(copies, append([]byte{}, query...))
+		fn := func(ctx context.Context, dw DataWriter, params []Parameter) error { return dw.Complete("T") }
+		return Prepared(NewStatement(fn)), nil
+	}
+	opts := []OptionFn{SessionAuthStrategy(ClearTextPassword(validate))}
+	if nondetBool() {
+		opts = append(opts, MessageBufferSize(128))
+		vReach("small-limit")
+	} else {
+		vReach("default-limit")
+	}
+	srv, err := NewServer(parse, opts...)
+	vAssert("newserver-ok", err == nil)
+	input := vCat(vStartup(vKV([]byte("user"), user, []byte("database"), []byte("db"))), vMsgBytes('p', vCStr(pw)))
+	for k := 0; k < K; k++ {
+		q := make([]byte, 40)
+		for i := range q {
+			q[i] = byte('A' + k)
+		}
+		input = vCat(input, vMsgBytes('Q', vCStr(q)))
+	}
+	input = vCat(input, vMsgBytes('X', nil))
+	conn := vNewConn(input)
+	srv.serve(context.Background(), conn) //nolint
+	vAssert("validator-was-consulted", copyPw != nil)
+	vAssert("queries-served", len(kept) == K)
+	vAssert("retained-password-unchanged", vEqStr(keptPw, string(copyPw)) && vEqBytes(copyPw, pw))
+	vAssert("retained-user-unchanged", vEqStr(keptUser, string(copyUser)) && vEqBytes(copyUser, user))
+	vAssert("retained-database-unchanged", vEqStr(keptDB, string(copyDB)) && keptDB == "db")
+	for i := range kept {
+		vAssert("retained-query-unchanged", vEqStr(kept[i], string(copies[i])))
 	}
 }
